@@ -27,12 +27,14 @@ var (
 	c24typObj    = reflect.TypeOf((*ast.Object)(nil))
 	c24typScope  = reflect.TypeOf((*ast.Scope)(nil))
 	c24typCGroup = reflect.TypeOf((*ast.CommentGroup)(nil))
+	c24typComment = reflect.TypeOf(ast.Comment{})
 )
 
 type c24cmp struct {
 	diffs    []c24diffT
 	max      int
-	posOK    bool // compare positions
+	posOK    bool // compare positions exactly
+	posValid bool // compare only whether a position is set (NoPos or not): it carries structure (grouping parentheses, alias '=', variadic '...')
 	nodes    int  // number of struct nodes visited
 	comments int  // number of comment groups compared
 }
@@ -75,6 +77,9 @@ func (c *c24cmp) walk(a, b reflect.Value, tpath, ipath string) {
 		if c.posOK && a.Int() != b.Int() {
 			c.add("pos", tpath, ipath, fmt.Sprintf("want %d got %d", a.Int(), b.Int()))
 		}
+		if c.posValid && (a.Int() == 0) != (b.Int() == 0) {
+			c.add("posvalid", tpath, ipath, fmt.Sprintf("want valid=%v got valid=%v", a.Int() != 0, b.Int() != 0))
+		}
 		return
 	}
 	switch a.Kind() {
@@ -107,6 +112,14 @@ func (c *c24cmp) walk(a, b reflect.Value, tpath, ipath string) {
 	case reflect.Struct:
 		c.nodes++
 		name := c24short(t)
+		if c.posValid && t == c24typComment {
+			// shape mode: the printer re-indents comments; compare their text modulo white space
+			x, y := strings.Join(strings.Fields(a.FieldByName("Text").String()), " "), strings.Join(strings.Fields(b.FieldByName("Text").String()), " ")
+			if x != y {
+				c.add("val", name+".Text", ipath+"/"+name+".Text", fmt.Sprintf("want %q got %q", c24trunc(x, 60), c24trunc(y, 60)))
+			}
+			return
+		}
 		// keep the Key short: only the innermost two struct names
 		tp := c24tail(tpath, name)
 		for i := 0; i < t.NumField(); i++ {
@@ -187,6 +200,20 @@ func c24nodeDiff(want, got ast.Node, withPos bool, max int) (diffs []c24diffT, n
 	c := &c24cmp{max: max, posOK: withPos}
 	c.walk(reflect.ValueOf(&want).Elem(), reflect.ValueOf(&got).Elem(), "", "")
 	return c.diffs, c.nodes, c.comments
+}
+
+// c24nodeDiffShape compares two nodes ignoring position VALUES (only set / not set is compared).
+func c24nodeDiffShape(want, got ast.Node, max int) (diffs []c24diffT, nodes int) {
+	c := &c24cmp{max: max, posValid: true}
+	c.walk(reflect.ValueOf(&want).Elem(), reflect.ValueOf(&got).Elem(), "", "")
+	return c.diffs, c.nodes
+}
+
+// c24nodeDiffNoPos compares two nodes ignoring positions altogether (trees built programmatically have none).
+func c24nodeDiffNoPos(want, got ast.Node, max int) (diffs []c24diffT) {
+	c := &c24cmp{max: max}
+	c.walk(reflect.ValueOf(&want).Elem(), reflect.ValueOf(&got).Elem(), "", "")
+	return c.diffs
 }
 
 // ---------------------------------------------------------------- identifier resolution (ast.Object)
